@@ -61,8 +61,21 @@ func genPart(r *Rng, i int, nch int, scale int64, base int64) [][]Ev {
 	return bs
 }
 
+// the parts of the time axis the events of a case are on: (name, scale, base) for genPart. "small": 10..2000 ns after the epoch
+// (the chunk-boundary arithmetic is the same everywhere, these keep the cases readable); "negative": before 1970;
+// "straddle": around 0 (BEFORE values <= 0 mean "not given" to the code); "nanos": 2017 in nanoseconds, one second apart;
+// "high": ten million nanoseconds below the greatest int64
+var tsClasses = []struct {
+	name        string
+	scale, base int64
+}{
+	{"small", 1, 0}, {"small", 1, 0}, {"small", 1, 0}, {"negative", 1, -100000}, {"straddle", 1, -300},
+	{"nanos", 1000000000, 1500000000000000000}, {"high", 1, 9223372036854775807 - 10000000},
+}
+
 func genCase(r *Rng) Replay {
-	np := r.PickInt(1, 1, 2, 2, 2, 3, 3, 4)
+	np := r.PickInt(1, 1, 2, 2, 2, 3, 3, 4, 6)
+	tc := tsClasses[r.Intn(len(tsClasses))]
 	parts := make([]PartSpec, np)
 	for i := range parts {
 		ps := PartSpec{Grp: "a"}
@@ -73,14 +86,17 @@ func genCase(r *Rng) Replay {
 			ps.Empty = true
 		} else {
 			nch := r.PickInt(1, 1, 2, 2, 3, 3, 4, 5, 6)
-			ps.Batches = genPart(r, i, nch, 1, 0)
+			if np >= 5 {
+				nch = r.PickInt(1, 1, 2, 3) // many partitions: keep the case small
+			}
+			ps.Batches = genPart(r, i, nch, tc.scale, tc.base)
 			n := 0
 			for _, b := range ps.Batches {
 				n += len(b)
 			}
 			if r.Chance(1, 3) {
 				ps.Park = r.Range(1, n)
-				ps.ParkRng = r.Chance(1, 2)
+				ps.ParkRng = tc.name == "small" && r.Chance(1, 2) // the parked RANGE covers 1 .. 100 s after the epoch
 			}
 		}
 		if r.Chance(1, 8) {
@@ -93,7 +109,24 @@ func genCase(r *Rng) Replay {
 		}
 		parts[i] = ps
 	}
-	return Replay{Kind: "trunc", Parts: parts, PSeed: r.U64()}
+	return Replay{Kind: "trunc", Parts: parts, PSeed: r.U64(), Repeat: r.Chance(1, 3), TsClass: tc.name}
+}
+
+// how a size may be written: the plain number, or a literal with a unit that denotes exactly that number
+func sizeText(r *Rng, v int64) string {
+	// (the lexer's Number class admits the units [mMkKgGtTbBpP] followed by up to two of the letters i, b in lower case:
+	// "1kb", "1k", "1Kib", "300B", "300b"; the usual spellings "1kB" / "1KiB" are not tokens of the language)
+	switch {
+	case v > 0 && v%1000 == 0 && r.Chance(1, 2):
+		return fmt.Sprintf("%d%s", v/1000, r.PickStr("kb", "k", "Kb", "K"))
+	case v > 0 && v%1000 == 500 && r.Chance(1, 2):
+		return fmt.Sprintf("%d.5kb", v/1000)
+	case v > 0 && v%1024 == 0 && r.Chance(1, 2):
+		return fmt.Sprintf("%d%s", v/1024, r.PickStr("Kib", "kib", "ki"))
+	case r.Chance(1, 6):
+		return fmt.Sprintf("%d%s", v, r.PickStr("B", "b"))
+	}
+	return ""
 }
 
 func partSize(po PartObs) int64 {
@@ -112,10 +145,28 @@ func clip(v int64) int64 {
 }
 
 // drawParams picks every parameter absent or at a value where a guard of the observed layout flips
-func drawParams(r *Rng, parts []PartSpec, before []PartObs) Params {
+func drawParams(r *Rng, parts []PartSpec, before []PartObs, allowNone bool) Params {
+	p := drawParams0(r, parts, before, allowNone)
+	// how the numbers are written
+	if p.Min >= 0 {
+		p.MinText = sizeText(r, p.Min)
+	}
+	if p.Max >= 0 {
+		p.MaxText = sizeText(r, p.Max)
+	}
+	if p.MaxDb >= 0 {
+		p.MaxDbText = sizeText(r, p.MaxDb)
+	}
+	p.Lower = r.Chance(1, 5)
+	return p
+}
+
+func drawParams0(r *Rng, parts []PartSpec, before []PartObs, allowNone bool) Params {
 	p := Params{SrcForm: "expr", Min: -1, Max: -1, Before: -1, MaxDb: -1}
 	if r.Chance(3, 10) {
 		p.SrcForm = "tags"
+	} else if allowNone && r.Chance(1, 8) {
+		p.SrcForm = "none" // no source: every partition of the server
 	}
 	if r.Chance(1, 16) {
 		// a source the parser accepts and the tag-condition builder refuses: nothing may happen, whatever else is asked for
@@ -158,7 +209,7 @@ func drawParams(r *Rng, parts []PartSpec, before []PartObs) Params {
 		case 1:
 			p.Max = clip(partSize(t) + delta())
 		case 5:
-			p.Max = int64(r.PickInt(0, 1000))
+			p.Max = int64(r.PickInt(0, 1000, 500, 1024))
 		default:
 			p.Max = clip(suffix() + delta())
 		}
@@ -166,7 +217,7 @@ func drawParams(r *Rng, parts []PartSpec, before []PartObs) Params {
 	if r.Chance(50, 100) {
 		switch r.Intn(6) {
 		case 0:
-			p.Min = int64(r.PickInt(0, 1, 50))
+			p.Min = int64(r.PickInt(0, 1, 50, 500, 1000))
 		case 1:
 			p.Min = clip(partSize(t) + delta())
 		default:
@@ -176,7 +227,13 @@ func drawParams(r *Rng, parts []PartSpec, before []PartObs) Params {
 	if r.Chance(55, 100) {
 		u := before[sel[r.Intn(len(sel))]]
 		c := u.Chunks[r.Intn(len(u.Chunks))]
-		switch r.Intn(8) {
+		switch r.Intn(9) {
+		case 8:
+			// a date before 1970: OldestTs <= 0, which the code takes as "BEFORE not given"
+			p.BefText = r.PickStr("1969-12-31 23:59:59", "1960-01-01 00:00:00", "1970-01-01 00:00:00")
+			v := literalNanos(p.BefText)
+			p.BefRaw = &v
+			p.Before = -1
 		case 0:
 			p.Before = int64(r.PickInt(0, 1, 5))
 		case 1:
@@ -199,6 +256,7 @@ func drawParams(r *Rng, parts []PartSpec, before []PartObs) Params {
 				if len(cc.Ts) > 0 && nw > cc.MaxTs && r.Chance(2, 3) {
 					p.Before = clip(cc.MaxTs + 1)
 					p.Max = -1
+					p.BefRaw, p.BefText = nil, ""
 				}
 			}
 		}
@@ -210,7 +268,7 @@ func drawParams(r *Rng, parts []PartSpec, before []PartObs) Params {
 		case 1:
 			p.MaxDb = clip(total + delta())
 		case 2:
-			p.MaxDb = int64(r.PickInt(1, 100, 500))
+			p.MaxDb = int64(r.PickInt(1, 100, 500, 1000, 1024, 2000))
 		default:
 			p.MaxDb = clip(total - partSize(before[sel[r.Intn(len(sel))]]) + delta())
 		}
@@ -271,6 +329,50 @@ func corpus() []Replay {
 	// a partition whose journal cannot be opened is skipped (untouched, not reported, not counted for MAXDBSIZE); the others are processed
 	cs = append(cs, Replay{Kind: "trunc", Parts: []PartSpec{{Grp: "a", Batches: mono(0, 6, 36, 1, 0), Fail: true}, {Grp: "a", Batches: mono(1, 6, 36, 1, 0)}, {Grp: "a", Empty: true, Fail: true}},
 		P: &Params{SrcForm: "expr", Min: -1, Max: 150, Before: -1, MaxDb: 250}})
+	// the guard `MaxSrcSize > MinSrcSize`: equal values switch the size phase off, one more switches it on (6 chunks of 100)
+	cs = append(cs, Replay{Kind: "trunc", Parts: []PartSpec{{Grp: "a", Batches: mono(0, 12, 36, 1, 0)}}, Repeat: true,
+		P: &Params{SrcForm: "expr", Min: 300, Max: 300, Before: -1, MaxDb: -1}})
+	cs = append(cs, Replay{Kind: "trunc", Parts: []PartSpec{{Grp: "a", Batches: mono(0, 12, 36, 1, 0)}}, Repeat: true,
+		P: &Params{SrcForm: "expr", Min: 300, Max: 301, Before: -1, MaxDb: -1}})
+	// sizes written with units, keywords in lower case: MAXSIZE 0.5kb = 500, MINSIZE 300B, MAXDBSIZE 1Kib = 1024 (10 chunks of 100 in two partitions... the second goes)
+	cs = append(cs, Replay{Kind: "trunc", Parts: []PartSpec{{Grp: "a", Batches: mono(0, 14, 36, 1, 0)}, {Grp: "a", Batches: mono(1, 12, 36, 1, 0)}}, Repeat: true,
+		P: &Params{SrcForm: "tags", Min: 300, MinText: "300B", Max: 500, MaxText: "0.5kb", Before: -1, MaxDb: 1024, MaxDbText: "1Kib", Lower: true}})
+	// six partitions under MAXDBSIZE: sortedInfos is filled in map order and kept sorted by the newest timestamp (insertions at the
+	// front, in the middle, at the end); the newest partitions go until 450 bytes are left
+	{
+		var ps []PartSpec
+		for i, n := range []int{4, 2, 6, 2, 4, 2} {
+			ps = append(ps, PartSpec{Grp: "a", Batches: mono(i, n, 36, 1, int64(100*((i*5)%6)))})
+		}
+		cs = append(cs, Replay{Kind: "trunc", Parts: ps, Repeat: true, P: &Params{SrcForm: "expr", Min: -1, Max: -1, Before: -1, MaxDb: 450}})
+	}
+	// no source at all: both groups are selected (run on a server that holds nothing else, otherwise with the expression form)
+	cs = append(cs, Replay{Kind: "trunc", Parts: []PartSpec{{Grp: "a", Batches: mono(0, 6, 36, 1, 0)}, {Grp: "b", Batches: mono(1, 6, 36, 1, 0)}, {Grp: "b", Empty: true}},
+		P: &Params{SrcForm: "none", Min: -1, Max: 150, Before: -1, MaxDb: -1}})
+	// events dated before 1970 (and around 0): BEFORE "5" takes the chunks whose newest event is negative or below 5; a BEFORE
+	// literal that denotes an instant before 1970 is taken as "not given" (nothing goes, though every event is older than some of them)
+	cs = append(cs, Replay{Kind: "trunc", Parts: []PartSpec{{Grp: "a", Batches: mono(0, 8, 36, 1, -45)}}, Repeat: true,
+		P: &Params{SrcForm: "expr", Min: -1, Max: -1, Before: 5, MaxDb: -1}})
+	{
+		v := literalNanos("1969-12-31 23:59:59")
+		cs = append(cs, Replay{Kind: "trunc", Parts: []PartSpec{{Grp: "a", Batches: mono(0, 8, 36, 1000000000, -3600000000000)}},
+			P: &Params{SrcForm: "expr", Min: -1, Max: -1, Before: -1, BefText: "1969-12-31 23:59:59", BefRaw: &v, MaxDb: -1}})
+	}
+	// timestamps next to the greatest int64
+	cs = append(cs, Replay{Kind: "trunc", Parts: []PartSpec{{Grp: "a", Batches: mono(0, 8, 36, 1, 9223372036854775807-1000)}},
+		P: &Params{SrcForm: "expr", Min: -1, Max: -1, Before: 9223372036854775807 - 1000 + 41, MaxDb: -1}})
+	// BEFORE as a relative literal: an hour ago, everything stored (1970) is older
+	cs = append(cs, Replay{Kind: "trunc", Parts: []PartSpec{{Grp: "a", Batches: mono(0, 6, 36, 1, 0)}, {Grp: "b", Batches: mono(1, 4, 36, 1, 0)}},
+		P: &Params{SrcForm: "expr", Min: 150, Max: -1, Before: literalNanos("-1h"), BefText: "-1h", MaxDb: -1}})
+	// a write call whose time range overlaps what its chunk already holds (late arrival: 15 after 10,20; then 40): the hull of the
+	// chunk in the time index has to be widened on both ends; BEFORE 21 / 39 / 40 stand behind the first batch's newest event but
+	// not behind the chunk's: nothing may go; BEFORE 41 takes the chunk (messages of 12 bytes = 26 stored: exactly four records per chunk,
+	// so the overlapping call is the last one that lands in the first chunk)
+	for _, b := range []int64{21, 40, 41} {
+		cs = append(cs, Replay{Kind: "trunc", Parts: []PartSpec{{Grp: "a", Batches: [][]Ev{{{Ts: 10, Len: 12}, {Ts: 20, Len: 12}}, {{Ts: 15, Len: 12}, {Ts: 40, Len: 12}},
+			{{Ts: 50, Len: 12}, {Ts: 60, Len: 12}, {Ts: 70, Len: 12}, {Ts: 80, Len: 12}, {Ts: 90, Len: 12}, {Ts: 100, Len: 12}}}}},
+			P: &Params{SrcForm: "expr", Min: -1, Max: -1, Before: b, MaxDb: -1}})
+	}
 	// MAXSIZE/MINSIZE guards: 9 chunks of 100: MAXSIZE 450 MINSIZE 440 stops at 500; the second partition is locked
 	cs = append(cs, Replay{Kind: "trunc", Parts: []PartSpec{{Grp: "a", Batches: mono(0, 18, 36, 1, 0), Park: 4}, {Grp: "a", Batches: mono(1, 3, 36, 1, 0), Hold: 2}},
 		P: &Params{SrcForm: "expr", Min: 440, Max: 450, Before: -1, MaxDb: -1}})
